@@ -6,6 +6,12 @@ C12.sig     the octets the signer signs and the octets the validator
             owner in canonical (lower-cased) form on every branch, type, class,
             original TTL, canonical length-prefixed RDATA.
 C12.sort    both sides order the RRs by canonical_cmp of the record data.
+C12.digest  the DS digest input is the *canonical* owner name followed by the
+            canonical DNSKEY RDATA (RFC 4034 5.1.4).
+C12.rsa     an RSA exponent / modulus of 1 to 512 octets (4096 bits, RFC 3110
+            section 2) is accepted, longer or empty ones are refused.
+C12.tag     Dnskey::key_tag reads all four RDATA fields, and every octet of the public
+            key contributes (no exact-chunk walk that drops a trailing odd octet).
 C12.labels  the RRSIG Labels value discounts only a *leftmost* wildcard label
             and the root label; the validator compares it against the owner's
             label count without the root.
@@ -30,6 +36,12 @@ def run(ctx):
     rule_sort(ctx, F)
     rule_labels(ctx, F)
     rule_scratch(ctx, F)
+    rule_digest(ctx, F)
+    rule_rsa(ctx, F)
+    rule_tag(ctx, F)
+    # both sides sort the RRset with canonical_cmp: its agreement with the canonical form is part of "signatures verify"
+    import c04
+    c04.rule_canon(ctx, F)
 
 
 def _tokens(b, F, depth=0):
@@ -242,3 +254,81 @@ def rule_scratch(ctx, F):
     ctx.ob(R, b, "the scratch buffer is what gets signed", len(signs) == 1 and any(b.dominates(w, signs[0]) for w in writes)
            and all(signs[0] in b.reach_from(w) for w in writes),
            "sign_raw is not called on the scratch buffer after all signed data was composed into it")
+
+
+def rule_digest(ctx, F):
+    R = "C12.digest"
+    ctx.floor(R, 2)
+    bs = [b for p, b in F.bodies.items() if re.search(r"DnskeyExt>::digest(::<.*>)?$", p)]
+    if not ctx.anchor(R, "DnskeyExt::digest", len(bs) >= 1):
+        return
+    b = bs[0]
+    names = []
+    for sb, bb, tt in sigs.callees_deep(F, b, depth=1):
+        fn = tt.get("full") or tt["fn"] or ""
+        if not sb.path.startswith(b.path):
+            continue            # only what digest and its closures feed themselves
+        if re.search(r"ToName>?::compose(_canonical)?(::<.*>)?$", fn):
+            names.append(("name", "canonical" in fn.split("::")[-1] or "compose_canonical" in fn))
+        if re.search(r"ComposeRecordData>?::compose(_canonical)?_rdata(::<.*>)?$", fn):
+            names.append(("rdata", "canonical" in fn))
+    nm = [c for k, c in names if k == "name"]
+    rd = [c for k, c in names if k == "rdata"]
+    ctx.ob(R, b, "the owner name is digested in canonical form", bool(nm) and all(nm),
+           "DnskeyExt::digest feeds the owner name as it is given (compose) instead of its canonical, lower-cased form "
+           "(compose_canonical): the DS digest of a key whose owner name has an upper-case letter differs from every other "
+           "implementation's")
+    ctx.ob(R, b, "the DNSKEY RDATA is digested in canonical form", bool(rd) and all(rd),
+           "DnskeyExt::digest does not use compose_canonical_rdata for the DNSKEY RDATA")
+
+
+def rule_rsa(ctx, F):
+    R = "C12.rsa"
+    ctx.floor(R, 1)
+    b = F.one_body(r"^crypto::common::rsa_exponent_modulus$")
+    if not ctx.anchor(R, "crypto::common::rsa_exponent_modulus", b):
+        return
+    ranges = []
+    for sb, bb, tt in sigs.callees_deep(F, b, depth=0):
+        fn = tt["fn"] or ""
+        if fn.endswith("::contains") and tt["args"]:
+            r = deep_strip(sb.term_of_operand(tt["args"][0]))
+            s = show(r)
+            if r[0] == "call" and "RangeInclusive" in (r[1] or "") and len(r[3]) >= 2:
+                ranges.append((const_value(deep_strip(r[3][0])), const_value(deep_strip(r[3][1]))))
+            elif r[0] == "agg" and "Range" in str(r[1][1]) and len(r[2]) >= 2:
+                lo, hi = const_value(deep_strip(r[2][0])), const_value(deep_strip(r[2][1]))
+                ranges.append((lo, hi - 1 if hi is not None and str(r[1][1]).endswith("::Range") else hi))
+    if not ctx.anchor(R, "length range test in rsa_exponent_modulus", len(ranges) >= 1, b.where()):
+        return
+    ctx.ob(R, b, "exponent and modulus lengths of 1..=512 octets are accepted", all(r == (1, 512) for r in ranges),
+           "rsa_exponent_modulus accepts lengths %s; RFC 3110 allows up to 4096 bits = 512 octets: a 4096-bit RSA key is "
+           "rejected (or an over-long one accepted)" % ranges)
+
+
+def rule_tag(ctx, F):
+    R = "C12.tag"
+    ctx.floor(R, 2)
+    import c04
+    bs = [b for p, b in F.bodies.items() if re.search(r"^rdata::dnssec::Dnskey::<\w+>::key_tag$", p)]
+    if not ctx.anchor(R, "Dnskey::key_tag", len(bs) == 1):
+        return
+    b = bs[0]
+    used = set(c04.fields_used(F, b, 1, "Dnskey"))
+    for sb, bb, tt in sigs.callees_deep(F, b, depth=0):
+        g = c04._getter_field(F, sigs.nogen(tt.get("res") or tt.get("full") or ""))
+        if g is None:
+            for p in F.bodies:
+                if sigs.nogen(p) == sigs.nogen(tt.get("full") or "") and p.startswith("rdata::dnssec::Dnskey::<"):
+                    g = c04._getter_field(F, p)
+        if g:
+            used.add(g)
+    need = {"flags", "protocol", "algorithm", "public_key"}
+    ctx.ob(R, b, "all four DNSKEY RDATA fields enter the key tag", need <= used,
+           "Dnskey::key_tag does not read %s: RFC 4034 appendix B sums the whole RDATA" % sorted(need - used))
+    names = [(tt["fn"] or "") for sb, bb, tt in sigs.callees_deep(F, b, depth=0)]
+    exact = [n for n in names if re.search(r"::(chunks_exact|array_chunks|as_chunks|rchunks_exact)$", n)]
+    rem = [n for n in names if re.search(r"::(remainder|into_remainder)$", n)]
+    ctx.ob(R, b, "no octet of the public key is left out of the sum", not exact or bool(rem),
+           "Dnskey::key_tag walks the public key with %s and never looks at the remainder: the last octet of an "
+           "odd-length key (Ed448, some RSA keys) does not enter the key tag" % (exact[0].split("::")[-1] if exact else ""))
